@@ -238,3 +238,243 @@ theorem readTree_enc (d : Der) (hw : d.WF) (hk : d.known = true) (hmax : d.enc.l
   exact readNode_enc d hw hk hmax _ (by have := fuel_le d; simp only [fuelFor]; omega)
 
 end Codec.Der
+
+/-! ## the converse: whatever the crate's routines accept is a canonical encoding -/
+namespace Codec.DerRd
+
+theorem anyDecode_tag {r : Rdr} (h : r.WF) (hbytes : ∀ b ∈ r.input, b < 256) {tag : Nat} {v : List Nat} {r' : Rdr}
+    (hr : anyDecode r = .ok ((tag, v), r')) : tagOfByte tag = .ok tag := by
+  unfold anyDecode at hr
+  cases hh : headerDecode r with
+  | error e => simp [hh, Bind.bind, Except.bind] at hr
+  | ok x =>
+    obtain ⟨⟨t, len⟩, r1⟩ := x
+    obtain ⟨ht, _, _, _⟩ := headerDecode_spec h hbytes hh
+    simp only [hh, Bind.bind, Except.bind] at hr
+    cases hs : r1.readSlice len with
+    | error e => simp [hs] at hr
+    | ok y =>
+      obtain ⟨s, r2⟩ := y
+      simp only [hs] at hr
+      cases hn : lenNew s.length with
+      | error e => simp [hn] at hr
+      | ok m =>
+        simp [hn, Pure.pure, Except.pure] at hr
+        obtain ⟨⟨ht2, _⟩, _⟩ := hr
+        subst ht2; exact ht
+
+/-- the concatenated encodings of a list of `(tag, value)` items -/
+def encItems (l : List (Nat × List Nat)) : List Nat := (l.map fun it => encTlv it.1 it.2).flatten
+
+/-- the item loop accepts canonical DER only: what it reads up to the end of the reader is exactly the
+concatenation of the encodings of the items it returns, and every tag is one the crate knows -/
+theorem items_canonical : ∀ (fuel : Nat) {r : Rdr} (_ : r.WF) (_ : ∀ b ∈ r.input, b < 256)
+    (acc l : List (Nat × List Nat)) (r' : Rdr), items fuel r acc = .ok (l, r') →
+    ∃ new, l = acc.reverse ++ new ∧ (r.input.drop r.offset).take (r.inputLen - r.position) = encItems new ∧
+      ∀ it ∈ new, tagOfByte it.1 = .ok it.1
+  | 0, _, _, _, _, _, _, hr => by simp [items] at hr
+  | fuel + 1, r, h, hbytes, acc, l, r', hr => by
+    unfold items at hr
+    rw [isFinished_ok h] at hr
+    by_cases hfin : r.inputLen - r.position = 0
+    · simp only [hfin, beq_self_eq_true, Except.ok.injEq, Prod.mk.injEq] at hr
+      exact ⟨[], by simp [hr.1], by simp [hfin, encItems], by simp⟩
+    · have hnf : (r.inputLen - r.position == 0) = false := by simp [hfin]
+      simp only [hnf] at hr
+      cases ha : anyDecode r with
+      | error e => simp [ha] at hr
+      | ok x =>
+        obtain ⟨⟨tag, v⟩, r1⟩ := x
+        simp only [ha] at hr
+        obtain ⟨htake, hadv⟩ := anyDecode_canonical h hbytes ha
+        have htag := anyDecode_tag h hbytes ha
+        obtain ⟨new, hl, hb, hk⟩ := items_canonical fuel hadv.wf (by rw [hadv.input]; exact hbytes) _ _ _ hr
+        refine ⟨(tag, v) :: new, by simp [hl], ?_, ?_⟩
+        · have hle := hadv.wf.pos_le
+          rw [hadv.pos, hadv.ilen] at hle
+          have hsplit : r.inputLen - r.position = (encTlv tag v).length + (r1.inputLen - r1.position) := by
+            rw [hadv.pos, hadv.ilen]; omega
+          rw [hsplit, List.take_add, htake, List.drop_drop]
+          rw [hadv.input, hadv.off] at hb
+          rw [hb]
+          simp [encItems]
+        · intro it hit
+          rcases List.mem_cons.1 hit with rfl | hit
+          · exact htag
+          · exact hk it hit
+
+theorem seqItems_canonical {v : List Nat} (hbytes : ∀ b ∈ v, b < 256) {its : List (Nat × List Nat)}
+    (h : seqItems v = .ok its) : v = encItems its ∧ v.length ≤ MAX_LEN ∧ ∀ it ∈ its, tagOfByte it.1 = .ok it.1 := by
+  unfold seqItems at h
+  cases hn : Rdr.new v with
+  | error e => simp [hn] at h
+  | ok r =>
+    obtain ⟨hr, hwf⟩ := new_ok hn
+    subst hr
+    simp only [hn] at h
+    cases hi : items (v.length + 1) (Rdr.slice v 0) [] with
+    | error e => simp [hi] at h
+    | ok y =>
+      obtain ⟨l, r'⟩ := y
+      simp only [hi, Except.ok.injEq] at h
+      subst h
+      obtain ⟨new, hl, hb, hk⟩ := items_canonical _ hwf hbytes _ _ _ hi
+      simp only [List.reverse_nil, List.nil_append] at hl
+      subst hl
+      simp only [Rdr.input, Rdr.offset, Rdr.inputLen, Rdr.position, List.drop_zero, Nat.sub_zero, List.take_length] at hb
+      exact ⟨hb, hwf.2, hk⟩
+
+theorem fromDerAny_facts {bytes : List Nat} (hbytes : ∀ b ∈ bytes, b < 256) {tag : Nat} {v : List Nat}
+    (h : fromDerAny bytes = .ok (tag, v)) :
+    bytes = encTlv tag v ∧ tagOfByte tag = .ok tag ∧ bytes.length ≤ MAX_LEN := by
+  refine ⟨fromDerAny_canonical hbytes h, ?_⟩
+  unfold fromDerAny at h
+  cases hn : Rdr.new bytes with
+  | error e => simp [hn, Bind.bind, Except.bind] at h
+  | ok r =>
+    obtain ⟨hr, hwf⟩ := new_ok hn
+    subst hr
+    simp only [hn, Bind.bind, Except.bind] at h
+    cases ha : anyDecode (Rdr.slice bytes 0) with
+    | error e => simp [ha] at h
+    | ok x =>
+      obtain ⟨⟨t, w⟩, r'⟩ := x
+      simp only [ha] at h
+      cases hf : r'.finish with
+      | error e => simp [hf] at h
+      | ok _ =>
+        simp [hf, Pure.pure, Except.pure] at h
+        obtain ⟨h1, h2⟩ := h
+        subst h1 h2
+        exact ⟨anyDecode_tag hwf hbytes ha, hwf.2⟩
+
+end Codec.DerRd
+
+namespace Codec.Der
+open Codec
+
+theorem tagOk_of_known {t : Nat} (h : DerRd.tagOfByte t = .ok t) : tagOk t = true := by
+  have h2 := (DerRd.tagOfByte_ok h).2
+  unfold DerRd.tagOfByte at h
+  split at h
+  · simp at h
+  · simp only [tagOk, Bool.and_eq_true, decide_eq_true_eq, bne_iff_ne, ne_eq]
+    omega
+
+theorem encL_eq_encItems (cs : List Der) (hw : Der.WFL cs) : Der.encL cs = DerRd.encItems (cs.map Der.hdr) := by
+  induction cs with
+  | nil => simp [Der.encL, DerRd.encItems]
+  | cons d r ih =>
+    simp only [Der.encL, List.map_cons, DerRd.encItems, List.flatten_cons, Der.hdr]
+    rw [Der.enc_eq_encTlv d hw.1.body_lt, ih hw.2]
+    simp [DerRd.encItems]
+
+theorem mem_encItems {its : List (Nat × List Nat)} {it : Nat × List Nat} (h : it ∈ its) :
+    (∀ b ∈ it.2, b ∈ DerRd.encItems its) ∧ it.2.length ≤ (DerRd.encItems its).length := by
+  induction its with
+  | nil => cases h
+  | cons a r ih =>
+    simp only [DerRd.encItems, List.map_cons, List.flatten_cons, List.mem_append, List.length_append]
+    rcases List.mem_cons.1 h with rfl | h
+    · exact ⟨fun b hb => Or.inl (by simp [DerRd.encTlv, hb]), by simp [DerRd.encTlv]; omega⟩
+    · obtain ⟨h1, h2⟩ := ih h
+      exact ⟨fun b hb => Or.inr (h1 b hb), by simp only [DerRd.encItems] at h2; omega⟩
+
+/-- what the `der`-crate tree reader returns is a well-formed tree of known tags with this tag and body -/
+theorem readNode_sound (fuel : Nat) :
+    (∀ tag v d, (∀ b ∈ v, b < 256) → DerRd.tagOfByte tag = .ok tag → v.length ≤ DerRd.MAX_LEN →
+      readNode fuel tag v = some d → d.WF ∧ d.known = true ∧ d.tag = tag ∧ d.body = v) ∧
+    (∀ its ds, (∀ it ∈ its, (∀ b ∈ it.2, b < 256) ∧ DerRd.tagOfByte it.1 = .ok it.1 ∧ it.2.length ≤ DerRd.MAX_LEN) →
+      readNodes fuel its = some ds → Der.WFL ds ∧ Der.knownL ds = true ∧ ds.map Der.hdr = its) := by
+  have hM : DerRd.MAX_LEN = 268435455 := rfl
+  induction fuel with
+  | zero => constructor <;> intros <;> simp_all [readNode, readNodes]
+  | succ fuel ih =>
+    obtain ⟨ih1, ih2⟩ := ih
+    constructor
+    · intro tag v d hb ht hl h
+      simp only [readNode] at h
+      split at h
+      · rename_i hc
+        split at h
+        · rename_i its hs
+          split at h
+          · rename_i cs hcs
+            simp only [Option.some.injEq] at h; subst h
+            obtain ⟨hv, _, hk⟩ := DerRd.seqItems_canonical hb hs
+            have hits : ∀ it ∈ its, (∀ b ∈ it.2, b < 256) ∧ DerRd.tagOfByte it.1 = .ok it.1 ∧ it.2.length ≤ DerRd.MAX_LEN := by
+              intro it hit
+              obtain ⟨m1, m2⟩ := mem_encItems hit
+              rw [← hv] at m1 m2
+              exact ⟨fun b hb2 => hb b (m1 b hb2), hk it hit, by omega⟩
+            obtain ⟨w, k, e⟩ := ih2 its cs hits hcs
+            have henc : Der.encL cs = v := by rw [encL_eq_encItems cs w, e, ← hv]
+            refine ⟨⟨tagOk_of_known ht, hc, by rw [henc]; omega, w⟩, ?_, rfl, henc⟩
+            simp [Der.known, k, (tagKnown_iff tag).2 ht]
+          · simp at h
+        · simp at h
+      · rename_i hc
+        simp only [Option.some.injEq] at h; subst h
+        refine ⟨⟨tagOk_of_known ht, by simpa using hc, by omega⟩, ?_, rfl, rfl⟩
+        simp [Der.known, (tagKnown_iff tag).2 ht]
+    · intro its ds hits h
+      match its, hits, h with
+      | [], _, h => simp [readNodes] at h; subst h; exact ⟨trivial, rfl, rfl⟩
+      | it :: rest, hits, h =>
+        simp only [readNodes] at h
+        split at h
+        · simp at h
+        · rename_i d hd
+          split at h
+          · simp at h
+          · rename_i ds2 hds
+            simp only [Option.some.injEq] at h; subst h
+            obtain ⟨hb, ht, hl⟩ := hits it (by simp)
+            obtain ⟨w1, k1, t1, b1⟩ := ih1 it.1 it.2 d hb ht hl hd
+            obtain ⟨w2, k2, e2⟩ := ih2 rest ds2 (fun x hx => hits x (by simp [hx])) hds
+            exact ⟨⟨w1, w2⟩, by simp [Der.knownL, k1, k2], by simp [Der.hdr, t1, b1, e2]⟩
+
+/-- **Link lemma (reader side).** Whatever the `der`-crate tree reader accepts is the canonical encoding of
+the tree it returns, the tree is well formed and has only tags the crate knows. -/
+theorem readTree_sound (l : List Nat) (hb : ∀ b ∈ l, b < 256) (d : Der) (h : readTree l = some d) :
+    d.WF ∧ d.known = true ∧ l = d.enc := by
+  unfold readTree at h
+  split at h
+  · rename_i tag v hf
+    obtain ⟨hl, ht, hmax⟩ := DerRd.fromDerAny_facts hb hf
+    have hvb : ∀ b ∈ v, b < 256 := fun b hbv => hb b (by rw [hl]; simp [DerRd.encTlv, hbv])
+    have hvl : v.length ≤ DerRd.MAX_LEN := by
+      have := congrArg List.length hl
+      simp [DerRd.encTlv] at this; omega
+    obtain ⟨w, k, t, b⟩ := (readNode_sound (fuelFor l)).1 tag v d hvb ht hvl h
+    exact ⟨w, k, by rw [Der.enc_eq_encTlv d w.body_lt, t, b, ← hl]⟩
+  · simp at h
+
+/-- the model's own reader accepts canonical encodings only (`parse_sound` for `parseDer`) -/
+theorem parseDer_sound (l : List Nat) (hb : ∀ b ∈ l, b < 256) (d : Der) (h : parseDer l = some d) :
+    d.WF ∧ l = d.enc := by
+  unfold parseDer at h
+  split at h
+  · rename_i d2 hp
+    simp only [Option.some.injEq] at h; subst h
+    obtain ⟨w, e⟩ := (parse_sound (fuelFor l)).1 l _ _ hb hp
+    exact ⟨w, by simpa using e⟩
+  · simp at h
+
+/-- **The two readers agree on every byte string** (octets `< 256`, length within `Length::MAX` of the crate):
+the tree reader made of the `der`-crate model accepts exactly what the model's `parseDer` accepts *and* whose
+tags the crate knows, with the same tree. (`parseDer` admits every low-tag-number identifier octet; the crate's
+`Tag::try_from` refuses the universal tags it has no type for — e.g. `0x07`, `0x0D`, constructed universal tags
+other than SEQUENCE / SET.) -/
+theorem readTree_iff_parseDer (l : List Nat) (hb : ∀ b ∈ l, b < 256) (hmax : l.length ≤ DerRd.MAX_LEN) (d : Der) :
+    readTree l = some d ↔ parseDer l = some d ∧ d.known = true := by
+  constructor
+  · intro h
+    obtain ⟨w, k, e⟩ := readTree_sound l hb d h
+    exact ⟨by rw [e]; exact parseDer_enc d w, k⟩
+  · intro ⟨h, k⟩
+    obtain ⟨w, e⟩ := parseDer_sound l hb d h
+    rw [e] at hmax ⊢
+    exact (readTree_enc d w k hmax).1
+
+end Codec.Der
